@@ -1,6 +1,6 @@
 (* Draw/Emit.v -- model of the page loop of Document.Write
-   (/repo/html/document/document.go:474-506), of addHyperlinks (400-414),
-   scaleAnchors (416-420) and setMediaBoxes (548-572).
+   (/repo/html/document/document.go:483-515), of addHyperlinks (409-423),
+   scaleAnchors (425-429) and setMediaBoxes (557-581).
 
    Written against an arithmetic record (Base/F32.v): `exactQ` is the instance
    the theorems are about, `f32` the instance compared bit for bit with the
@@ -38,13 +38,13 @@ Local Notation "x -. y" := (sub ar x y) (at level 50, left associativity).
 Local Notation "x *. y" := (mul ar x y) (at level 40, left associativity).
 Local Notation "x /. y" := (div ar x y) (at level 40, left associativity).
 
-(* :476  scale := zoom * 0.75 *)
+(* :485  scale := zoom * 0.75 *)
 Definition scale_of (zoom : Q) : Q := zoom *. (3 # 4).
 
 (* utils.MinF *)
 Definition minf (x y : Q) : Q := if Qlt_le_dec x y then x else y.
 
-(* :403-404 *)
+(* :412-413 *)
 Definition scale_rect (m : T) (r : rect) : rect :=
   let '(x0, y0) := apply ar m (rx0 r) (ry0 r) in
   let '(x1, y1) := apply ar m (rx1 r) (ry1 r) in
@@ -52,14 +52,14 @@ Definition scale_rect (m : T) (r : rect) : rect :=
 
 Definition scale_link (m : T) (l : link) : link := mklink (ltyp l) (ltarget l) (scale_rect m (lrect l)).
 
-(* :416-420 *)
+(* :425-429 *)
 Definition scale_anchor (m : T) (a : anchor) : anchor :=
   let '(x, y) := apply ar m (px (apos a)) (py (apos a)) in mkanchor (aname a) (mkpos x y).
 
-(* :400-413: a link whose type is none of the three strings is not emitted *)
+(* :409-422: a link whose type is none of the three strings is not emitted *)
 Definition emitted (l : link) : bool := match ltyp l with LOther => false | _ => true end.
 
-(* :548-571 *)
+(* :557-580 *)
 Definition media_boxes (bl bt br bb : Q) (left top right bottom : Q) : list rect :=
   let bt := bt *. (3 # 4) in
   let bb := bb *. (3 # 4) in
@@ -73,24 +73,24 @@ Definition media_boxes (bl bt br bb : Q) (left top right bottom : Q) : list rect
     mkrect trim_l trim_t trim_r trim_b;
     mkrect (trim_l -. minf 10 bl) (trim_t -. minf 10 bt) (trim_r +. minf 10 br) (trim_b +. minf 10 bb) ].
 
-(* :486-503 one iteration *)
+(* :495-512 one iteration *)
 Definition emit_page (zoom : Q) (p : epage) : opage :=
   let scale := scale_of zoom in
-  let page_w := scale *. (ep_w p +. ep_bl p +. ep_br p) in        (* :487 *)
-  let page_h := scale *. (ep_h p +. ep_bt p +. ep_bb p) in        (* :488 *)
-  let left := (- scale) *. ep_bl p in                             (* :489 *)
-  let top := (- scale) *. ep_bt p in                              (* :490 *)
+  let page_w := scale *. (ep_w p +. ep_bl p +. ep_br p) in        (* :496 *)
+  let page_h := scale *. (ep_h p +. ep_bt p +. ep_bb p) in        (* :497 *)
+  let left := (- scale) *. ep_bl p in                             (* :498 *)
+  let top := (- scale) *. ep_bt p in                              (* :499 *)
   let right := left +. page_w in
   let bottom := top +. page_h in
   let m := mk scale 0 0 (- scale) 0 (ep_h p *. scale) in          (* :499 *)
   mkopage
-    (mkrect (left /. scale) (top /. scale) ((right -. left) /. scale) ((bottom -. top) /. scale))  (* :494 *)
-    (mk 1 0 0 (-1) 0 (ep_h p *. scale))                           (* :495 *)
-    (map (scale_link m) (filter emitted (ep_links p)))            (* :501 *)
-    (map (scale_anchor m) (ep_anchors p))                         (* :502 *)
-    (media_boxes (ep_bl p) (ep_bt p) (ep_br p) (ep_bb p) left top right bottom).  (* :503 *)
+    (mkrect (left /. scale) (top /. scale) ((right -. left) /. scale) ((bottom -. top) /. scale))  (* :512 *)
+    (mk 1 0 0 (-1) 0 (ep_h p *. scale))                           (* :504 *)
+    (map (scale_link m) (filter emitted (ep_links p)))            (* :510 *)
+    (map (scale_anchor m) (ep_anchors p))                         (* :511 *)
+    (media_boxes (ep_bl p) (ep_bt p) (ep_br p) (ep_bb p) left top right bottom).  (* :512 *)
 
-(* :486 for i, page := range d.Pages *)
+(* :495 for i, page := range d.Pages *)
 Definition emit (zoom : Q) (pages : list epage) : list opage := map (emit_page zoom) pages.
 
 End WithArith.
@@ -104,19 +104,19 @@ End WithArith.
 Definition link_kind (l : link) : N :=
   match ltyp l with LInternal => 0%N | LExternal => 1%N | _ => 2%N end.
 
-(* document.go:234-250 Page.Paint(dst, fc, 0, 0, scale, false) around the
+(* document.go:235-251 Page.Paint(dst, fc, 0, 0, scale, false) around the
    abstract body `paint` *)
 Definition page_paint_calls (c : N) (paint : list call) : list call :=
   [CPush c; CTransform c (K 6)] ++ paint ++ [CPop c].
 
-(* one iteration of :486-503 as calls *)
+(* one iteration of :495-512 as calls *)
 Definition page_calls (c : N) (nlinks : list N) (paint : list call) : list call :=
   [CAddPage c (K 4); CTransform c (K 6)]
   ++ page_paint_calls c paint
   ++ map (fun k => CPageLink c k (K 4)) nlinks
   ++ [CPageBox c (K 4); CPageBox c (K 4); CPageBox c (K 4)].
 
-(* :506-531: CreateAnchors, SetAttachments, SetBookmarks, 8 metadata setters *)
+(* :515-540: CreateAnchors, SetAttachments, SetBookmarks, 8 metadata setters *)
 Definition trailer_calls (nanchors nbookmarks : N) : list call :=
   [CDoc 0 (K (2 * nanchors)); CDoc 1 (K 0); CDoc 2 (K (2 * nbookmarks))]
   ++ repeat (CDoc 3 (K 0)) 8.
